@@ -42,7 +42,10 @@ type genCfg struct {
 	// variable: visit functions, a host function with a side effect), the host registers its own
 	// handler under the name of the built-in `wait`
 	Dispatch bool
-	Storer   string
+	// scale: 12-24 nodes, nesting up to 7 levels, groups of up to 13 options, lines of dozens of parts
+	// (a statement budget per program keeps the size bounded)
+	Huge   bool
+	Storer string
 }
 
 var families = map[string]genCfg{
@@ -73,6 +76,8 @@ var families = map[string]genCfg{
 		Cmds: 5, PendCmds: true, FailCmds: true, Reloop: true, Dispatch: true, Storer: "recording"},
 	// variables shown in lines of a node that runs three times (the host may write in between)
 	"varsloop": {Family: "varsloop", MaxNodes: 1, MaxDepth: 1, MaxStmts: 5, Sets: 2, Lines: 5, Ifs: 0.5, Opts: 0.5, Reloop: true, Storer: "recording"},
+	"huge": {Family: "huge", MaxNodes: 24, MaxDepth: 7, MaxStmts: 5, Opts: 3, Ifs: 2.5, Sets: 1.5, Jumps: 1.5, Stops: 0.3, Lines: 3,
+		Cmds: 0.5, Calls: 0.3, VisitLine: false, Huge: true, Storer: "recording"},
 	"snap": {Family: "snap", MaxNodes: 3, MaxDepth: 2, MaxStmts: 4, Opts: 2, Ifs: 1, Sets: 3, Jumps: 2.5, Stops: 0.3, Lines: 2,
 		Cmds: 1.5, PendCmds: true, VisitLine: true, IntroNode: true, Storer: "recording"},
 }
@@ -179,9 +184,11 @@ type gen struct {
 	vtypes   map[string]string // variable -> "n" | "b" | "s"
 	vnames   []string
 	hostWait bool
+	budget   int // Huge: statements left to generate
 }
 
-var nodeTitles = []string{"Start", "Beta", "Gamma", "Delta", "Eps", "Zeta"}
+var nodeTitles = []string{"Start", "Beta", "Gamma", "Delta", "Eps", "Zeta", "Eta", "Theta", "Iota", "Kappa", "Lambda", "Mu1", "Nu1", "Xi1",
+	"Omicron", "Pi1", "Rho", "Sigma", "Tau", "Upsilon", "Phi", "Chi", "Psi", "Omega", "Aleph", "Beth"}
 
 func genCase(rnd *rand.Rand, cfg genCfg, id int) *Case {
 	g := &gen{rnd: rnd, cfg: cfg, vtypes: map[string]string{}}
@@ -200,6 +207,10 @@ func genCase(rnd *rand.Rand, cfg genCfg, id int) *Case {
 		hostStop = true
 	}
 	nn := 1 + rnd.Intn(cfg.MaxNodes)
+	if cfg.Huge {
+		nn = cfg.MaxNodes/2 + rnd.Intn(cfg.MaxNodes/2+1)
+		g.budget = 350
+	}
 	g.titles = nodeTitles[:nn]
 	if cfg.CountJumps {
 		g.titles = []string{"N0", "N1", "N2"}[:nn]
@@ -256,6 +267,10 @@ func genCase(rnd *rand.Rand, cfg genCfg, id int) *Case {
 			stmts = append(stmts, g.initVars()...)
 		}
 		stmts = append(stmts, g.stmts(1, i)...)
+		if cfg.Huge && stmts[len(stmts)-1].K != "jump" {
+			// the nodes form a ring: a walk goes on for hundreds of calls
+			stmts = append(stmts, Stmt{K: "jump", E: eStr(g.titles[(i+1)%nn])})
+		}
 		c.Nodes[i].Body = c.addBody(stmts)
 	}
 	if hostStop {
@@ -662,6 +677,9 @@ func (g *gen) lineStmt() Stmt {
 	r := g.rnd
 	parts := []Part{{Lit: fmt.Sprintf("L%d", g.lineNo)}}
 	n := r.Intn(3)
+	if g.cfg.Huge && r.Intn(10) == 0 {
+		n = 20 + r.Intn(20) // a line of hundreds of characters
+	}
 	for i := 0; i < n; i++ {
 		t := []string{"n", "b", "s"}[r.Intn(3)]
 		parts = append(parts, Part{Lit: []string{" ", " v=", ", "}[r.Intn(3)]}, Part{E: g.expr(t, g.exprDepth())})
@@ -815,6 +833,11 @@ func (g *gen) stmts(depth int, node int) []Stmt {
 	r := g.rnd
 	cfg := g.cfg
 	n := 1 + r.Intn(cfg.MaxStmts)
+	if cfg.Huge {
+		if g.budget -= n; g.budget < 0 {
+			return []Stmt{g.lineStmt()} // budget spent: no further nesting
+		}
+	}
 	var out []Stmt
 	total := cfg.Opts + cfg.Ifs + cfg.Sets + cfg.Jumps + cfg.Stops + cfg.Lines + cfg.Cmds + cfg.Calls
 	lastWasOpts := false
@@ -856,7 +879,11 @@ func (g *gen) stmts(depth int, node int) []Stmt {
 				continue
 			}
 			st := Stmt{K: "opts"}
-			for k := 1 + r.Intn(3); k > 0; k-- {
+			nopt := 1 + r.Intn(3)
+			if cfg.Huge && r.Intn(4) == 0 {
+				nopt = 8 + r.Intn(6)
+			}
+			for k := nopt; k > 0; k-- {
 				g.lineNo++
 				o := Option{Text: []Part{{Lit: fmt.Sprintf("O%d", g.lineNo)}}}
 				if r.Intn(3) == 0 {
